@@ -723,6 +723,18 @@ impl ReloadId {
     }
 }
 
+#[cfg(assets_manager_verif)]
+#[allow(missing_docs)]
+impl ReloadId {
+    pub fn verif_from_raw(raw: usize) -> Self {
+        Self(raw)
+    }
+
+    pub fn verif_raw(self) -> usize {
+        self.0
+    }
+}
+
 impl Default for ReloadId {
     #[inline]
     fn default() -> Self {
